@@ -1,6 +1,6 @@
 /// C20 for base64: whatever options were used to encode, decoding with the same `url_safe` gives the text back
 pub proof fn lemma_b64_lossless(url_safe: bool, pad: bool, s: Seq<char>)
-    ensures dec_text(url_safe, enc_spec(VxEngine { url_safe, pad }, s)) == Some(s)
+    ensures dec_text(url_safe, enc_text(url_safe, pad, s)) == Some(s)
 {
-    axiom_b64_roundtrip(VxEngine { url_safe, pad }, s);
+    axiom_b64_roundtrip(url_safe, pad, s);
 }
